@@ -35,6 +35,9 @@ struct Tw<'a> {
     out: Vec<Failure>,
     n_exprs: usize,
     void_arith: Vec<String>,
+    /// the caller knows that operands of operators may be casts written in the source (then a
+    /// cast operand that already has the result type may be the operand itself, not a wrapper)
+    source_casts_as_operands: bool,
 }
 
 fn base(t: &Type) -> String {
@@ -137,7 +140,16 @@ impl<'a> Tw<'a> {
                 if let asg::BinaryOp::ArithOp(op) = b.op() {
                     let tl = Self::uncast(b.left()).get_type().clone();
                     let tr = Self::uncast(b.right()).get_type().clone();
-                    let common = asg::implicit_cast_type(op, &tl, &tr);
+                    let mut common = asg::implicit_cast_type(op, &tl, &tr);
+                    if ty != common && self.source_casts_as_operands {
+                        for (l2, r2) in [(b.left().get_type(), &tr), (&tl, b.right().get_type()), (b.left().get_type(), b.right().get_type())] {
+                            let c2 = asg::implicit_cast_type(op, l2, r2);
+                            if c2 == ty {
+                                common = c2;
+                                break;
+                            }
+                        }
+                    }
                     let key = format!("{op:?}:{},{}", base(&tl), base(&tr));
                     if ty != common {
                         self.fail(format!("C08:arith:result-is-not-common-type:{key}"), format!("{common:?}"), format!("{ty:?}"));
@@ -319,8 +331,12 @@ impl<'a> Tw<'a> {
 
 /// Local typing consistency of a whole analysed program. Returns number of typed expressions.
 pub fn check_typed_graph(text: &str, res: &Analysis, out: &mut Vec<Failure>) -> usize {
+    check_typed_graph_with(text, res, false, out)
+}
+
+pub fn check_typed_graph_with(text: &str, res: &Analysis, source_casts_as_operands: bool, out: &mut Vec<Failure>) -> usize {
     let r = guarded(|| {
-        let mut w = Tw { table: res.symbol_table(), text, out: vec![], n_exprs: 0, void_arith: vec![] };
+        let mut w = Tw { table: res.symbol_table(), text, out: vec![], n_exprs: 0, void_arith: vec![], source_casts_as_operands };
         w.block(res.program().stmts());
         let (n_type_diags, kinds) = type_diag_count(res);
         if n_type_diags == 0 {
@@ -460,6 +476,8 @@ fn must_diagnose(t: &TT, v: &TT, form: &str, value_const: bool) -> Option<&'stat
 }
 
 struct TableCase {
+    /// the type written in a source cast that is the whole value (the `cast` form)
+    source_cast: Option<Type>,
     key: String,
     text: String,
     target: Type,
@@ -503,6 +521,10 @@ fn table_cases(thorough: bool) -> Vec<TableCase> {
             if matches!(v.name, "int" | "uint" | "float" | "complex" | "angle" | "bool" | "bit") && !(v.name == "bit" && v.w.is_some()) {
                 forms.push(("cast".into(), "int[32] w;".into(), format!("{vs}(w)"), true));
             }
+            if matches!(v.name, "int" | "uint" | "float") && matches!(t.name, "int" | "uint" | "float") {
+                // a source cast as operand of an operator whose other operand has the target type
+                forms.push(("cast-in-arithmetic".into(), format!("int[32] w; {ts} u;"), format!("({vs}(w) + u)"), false));
+            }
             if v.name != "stretch" {
                 let ret = match &lit0 {
                     Some(l) => format!("return {l};"),
@@ -540,7 +562,9 @@ fn table_cases(thorough: bool) -> Vec<TableCase> {
                     } else {
                         format!("{prelude}\n{stmt}")
                     };
-                    let must = must_diagnose(t, v, &fname, value_const);
+                    // (for the cast-in-arithmetic form the value has the common type of both
+                    // operands: only the presence of the cast node and the value-type clause are judged)
+                    let must = if fname == "cast-in-arithmetic" { None } else { must_diagnose(t, v, &fname, value_const) };
                     // a numeric literal has no written width: "same type" is only meaningful for the
                     // literal classes whose type is exact (bool, duration, bit string)
                     let same = t == v && !(fname.contains("literal") && matches!(v.name, "int" | "float" | "complex")) && !nonconst_into_const;
@@ -556,6 +580,7 @@ fn table_cases(thorough: bool) -> Vec<TableCase> {
                         // the same declaration when the name is already bound in this scope: it is
                         // reported as a redeclaration, and its initializer is judged all the same
                         out.push(TableCase {
+                            source_cast: if fname == "cast" || fname == "cast-in-arithmetic" { Some(tt_type(v, true)) } else { None },
                             key: if fname.contains("literal") { format!("decl:{}<-{}:{fname}:redeclared", t.name, v.name) } else { format!("decl:{}<-{}:{fname}:{wc}:redeclared", t.name, v.name) },
                             text: format!("{prelude}\nbool x;\n{stmt}"),
                             target: tt_type(t, konst),
@@ -565,6 +590,7 @@ fn table_cases(thorough: bool) -> Vec<TableCase> {
                         });
                     }
                     out.push(TableCase {
+                        source_cast: if fname == "cast" || fname == "cast-in-arithmetic" { Some(tt_type(v, true)) } else { None },
                         // a literal has no written width: its key does not carry the width class
                         key: if fname.contains("literal") {
                             format!("{}:{}<-{}:{fname}", if is_decl { "decl" } else { "assign" }, t.name, v.name)
@@ -592,6 +618,7 @@ fn table_cases(thorough: bool) -> Vec<TableCase> {
             let (prelude, call) = if with_param { ("def p(int[32] n) { n = 0; }", "p(3)") } else { ("def p() { }", "p()") };
             let stmt = if is_decl { format!("{ts} x = {call};") } else { format!("{ts} x; x = {call};") };
             out.push(TableCase {
+                source_cast: None,
                 key: format!("{}:{}<-void-call{}", if is_decl { "decl" } else { "assign" }, t.name, if with_param { ":with-parameter" } else { "" }),
                 text: format!("{prelude}\n{stmt}"),
                 target: tt_type(t, false),
@@ -609,7 +636,7 @@ fn check_table_case(tc: &TableCase, out: &mut Vec<Failure>) -> bool {
         return false;
     }
     let Ok(res) = analyze(&tc.text) else { return false };
-    check_typed_graph(&tc.text, &res, out);
+    check_typed_graph_with(&tc.text, &res, tc.key.contains(":cast-in-arithmetic"), out);
     let (n_type_diags, kinds) = type_diag_count(&res);
     let detail = |e: String, a: String| json!({"input": {"source": tc.text}, "expected": e, "actual": a, "diagnostics": kinds});
     // the last statement of the program (of the loop body for the loop-variable form)
@@ -635,6 +662,29 @@ fn check_table_case(tc: &TableCase, out: &mut Vec<Failure>) -> bool {
         } else if let asg::Expr::Cast(cast) = value.expression() {
             if !tc.is_decl || cast.get_type() == &tc.target || strip_const(cast.get_type()) == strip_const(&tc.target) {
                 // fine
+            }
+        }
+        // a cast written in the source is a cast node with its own target type, whatever
+        // conversion is applied on top of it
+        if let Some(ct) = &tc.source_cast {
+            let mut e = value;
+            let mut found = false;
+            loop {
+                match e.expression() {
+                    asg::Expr::Cast(c) => {
+                        if strip_const(c.get_type()) == strip_const(ct) {
+                            found = true;
+                            break;
+                        }
+                        e = c.operand();
+                    }
+                    // the cast-in-arithmetic form: the cast is the left operand
+                    asg::Expr::BinaryExpr(b) => e = b.left(),
+                    _ => break,
+                }
+            }
+            if !found {
+                out.push(Failure::new(format!("C08:table:source-cast-missing:{}", tc.key), detail(format!("a cast node of type {ct:?} (up to const)"), format!("{:?}", value.expression()).chars().take(300).collect())));
             }
         }
         if let Some(why) = tc.must {
